@@ -242,3 +242,53 @@ func evalConstCmp(op token.Token, x, y ssa.Value) (val, known bool) {
 	}
 	return false, false
 }
+
+// InfeasibleByEval replays the path with the finite evaluator (rule_eval.go): loop counters that
+// start from constants take concrete values along the path (first iteration i = 0, second i = 1 …),
+// so a branch like `if i > 0` is decided per iteration.  The path is infeasible if it takes an
+// edge whose condition evaluates to the opposite.
+func (p Path) InfeasibleByEval() bool {
+	e := &miniEnv{vals: map[ssa.Value]int64{}}
+	for i, b := range p.Blocks {
+		if i > 0 {
+			prev := p.Blocks[i-1]
+			type upd struct {
+				ph *ssa.Phi
+				v  int64
+				ok bool
+			}
+			var us []upd
+			for _, in := range b.Instrs {
+				ph, ok := in.(*ssa.Phi)
+				if !ok {
+					break
+				}
+				for k, q := range b.Preds {
+					if q == prev {
+						v, ok := e.eval(ph.Edges[k], 0)
+						us = append(us, upd{ph, v, ok})
+						break
+					}
+				}
+			}
+			for _, u := range us {
+				if u.ok {
+					e.vals[u.ph] = u.v
+				} else {
+					delete(e.vals, u.ph)
+				}
+			}
+		}
+		if i+1 < len(p.Blocks) {
+			if iff, ok := b.Instrs[len(b.Instrs)-1].(*ssa.If); ok && b.Succs[0] != b.Succs[1] {
+				if c, ok := e.eval(iff.Cond, 0); ok {
+					took := p.Blocks[i+1] == b.Succs[0]
+					if took != (c != 0) {
+						return true
+					}
+				}
+			}
+		}
+	}
+	return false
+}
